@@ -221,6 +221,8 @@ def run(rep, tier, seed):
         "inside a Pareto layer any order is accepted (the epsilon-net order is not part of the property); MOASHA's "
         "decision must be possible under SOME valid sort: rank in [#earlier layers, #earlier + |own layer| - 1]",
         "MOASHA's bracket choice (numpy global generator) is read from the scheduler, not dictated",
+        "with a scalar priority (FixedObjectivePriority) equal priorities share a rank: the rank of the reporting trial is "
+        "the number of strictly better entries of the rung",
     )
     pareto_campaign(rep, tier, seed)
     moasha_campaign(rep, tier, seed)
